@@ -16,6 +16,14 @@ for p in sys.argv[1:]:
 entries = list(fixed)
 for sig in sorted(merged):
     g = merged[sig]
+    if sig.startswith("fn:") and sig.endswith(" timeout"):
+        # a hang without a huge-number argument seen in a discovery run on a loaded box is not
+        # believed (the harness now confirms such hangs on a fresh worker): keep only groups
+        # with a huge-number witness
+        big = sorted(t for t in g["tuples"] if {"nb", "ni"} & set(t.split(",")))
+        if not big:
+            continue
+        g["replay"] = "fn %s %s" % (sig[3:].split("/")[0], big[0].replace(",", " "))
     e = {"property": "C09", "key": sig, "status": "open", "what": "%s  [first witness %s]" % (sig, g["what"]), "replay": g["replay"]}
     if sig.startswith("fn:"):
         e["tuples"] = ["*"] if sig.endswith(" timeout") else sorted(g["tuples"])
